@@ -149,6 +149,8 @@ func c13Build(sc *c13Scenario) {
 	}
 	prog := fmt.Sprintf(`:- dynamic(n/1).
 :- dynamic(q/1).
+:- dynamic(dz/1).
+dz(old).
 q(0).
 body :- tick, cnt(I), %s, done.
 nat(0).
@@ -158,6 +160,7 @@ loopn(N) :- N =< 0.
 loopn(N) :- N > 0, body, M is N - 1, loopn(M).
 g(1). g(2). g(3).
 g(X) :- g(Y), X is Y + 3.
+term_expansion(probe_in, probe_out).
 `, effect)
 	gen := ""
 	switch sc.Core {
@@ -246,14 +249,14 @@ g(X) :- g(Y), X is Y + 3.
 	sc.Program = prog
 	switch sc.Entry {
 	case "exec-directive":
-		sc.Text = "pa(1).\n:- " + goal + ".\npb(1).\n"
+		sc.Text = "pa(1).\n:- dynamic(dz/1).\ndz(new).\n:- " + goal + ".\npb(1).\n"
 	case "exec-init":
-		sc.Text = "pa(1).\n:- initialization((" + goal + ")).\npb(1).\n"
+		sc.Text = "pa(1).\n:- dynamic(dz/1).\ndz(new).\n:- initialization((" + goal + ")).\npb(1).\n"
 	case "exec-consult", "query-consult", "exec-include", "exec-ensure-loaded", "exec-consult-list", "exec-nested-include":
-		sc.Text = "pa(1).\n:- " + goal + ".\npb(1).\n"
+		sc.Text = "pa(1).\n:- dynamic(dz/1).\ndz(new).\n:- " + goal + ".\npb(1).\n"
 	case "exec-termexp", "query-expand-term":
 		sc.Program += "term_expansion(trigger, expanded) :- " + goal + ".\n"
-		sc.Text = "pa(1).\ntrigger.\npb(1).\n"
+		sc.Text = "pa(1).\n:- dynamic(dz/1).\ndz(new).\ntrigger.\npb(1).\n"
 	}
 }
 
@@ -545,6 +548,39 @@ func c13Probes(r *kit.Run, interp *prolog.Interpreter, out *kit.SimWriter, sc *c
 		!ask("findall(X, member(X, [1, 2, 3]), L)", "L=[1,2,3] X=_A") ||
 		!ask("\\+ probe(_)", "") {
 		return
+	}
+	// term expansion still works (an aborted expansion must not leave a mode behind)
+	if !ask("expand_term(probe_in, X)", "X=probe_out") {
+		return
+	}
+	if err := interp.Exec("probe_in."); err != nil {
+		r.Fail("unusable-after-cancel", "probe-exec", "Exec of a text that needs term expansion after the cancelled call: %v", err)
+		return
+	}
+	if !ask("probe_out", "") {
+		return
+	}
+	// a text whose load was aborted by the cancel defines nothing: the dynamic predicate it re-declares keeps its old clause.
+	// (If the text's last clause is visible the text had been committed before the cancel took effect.)
+	if loadEntry := strings.HasPrefix(sc.Entry, "exec-") || sc.Entry == "query-consult"; loadEntry {
+		committed := interp.QuerySolution("catch(pb(1), _, fail).").Err() == nil
+		want := "L=[old] X=_A"
+		if committed {
+			want = "L=[new] X=_A"
+		}
+		if !cancelled && !committed {
+			want = "" // the call ended in some other way; covered by the checks above
+		}
+		if want != "" && !ask("findall(X, dz(X), L)", want) {
+			return
+		}
+		if !committed && cancelled {
+			r.Probe("load-aborted-by-cancel-left-nothing")
+			if interp.QuerySolution("catch(pa(1), _, fail).").Err() == nil {
+				r.Fail("unusable-after-cancel", "aborted-load-partly-visible", "the load was aborted by the cancel, its last clause pb(1) is not visible but its first clause pa(1) is")
+				return
+			}
+		}
 	}
 	if err := interp.Exec("pz(1). pz(2)."); err != nil {
 		r.Fail("unusable-after-cancel", "probe-exec", "Exec of a small text after the cancelled call: %v", err)
